@@ -1,5 +1,231 @@
-"""stub"""
+"""C20 — conversion output depends only on the input file (DESIGN.md §4 C20)."""
+from __future__ import annotations
+
+import ast
+
+from ..core import guards
+from ..core import pyfacts as pf
+from ..core.callgraph import callgraph
+from ..core.effects import effects
+from ..core.match import txt
 from ..core.source import AnchorMissing
-PROP="C20"
+from .common import A2G, ACHAIN, GOOFIT, ckey, fn, stmt_of, where
+
+PROP = "C20"
+FILES = [ACHAIN, GOOFIT, A2G, "modeling/decay.py", "modeling/ampgentransform.py"]
+EXPLANATION = (
+    "C20.1 enumeration (effect analysis over modeling/) of class- and module-level state that is written on the read path "
+    "and read on a read or output path; C20.2 for each such piece of state the common reader entry read_ampgen assigns it, on "
+    "every normal path, before the first statement that can read or add to it; C20.3 the reset rebinds (or clears) through "
+    "`cls`, so a subclass attribute created by an earlier in-place `|=` cannot keep the old object; pars/consts are assigned "
+    "unconditionally by each converter's read_ampgen and read back through the same class; C20.4 the one-time special-"
+    "particle table load is guarded by a membership test; C20.5 no other module-level mutable state is written in modeling/.")
+NOT_DECIDED = ["hash-seed independence beyond what the property tolerates (iteration over sets in make_intro / make_pars is explicitly allowed): not applicable",
+               "byte-equality of outputs across fresh processes (needs execution)"]
+R = "AmplitudeChain.read_ampgen"
+
+
 def run(ctx, ss):
-    raise AnchorMissing("rules not built yet")
+    for r, f in (("C20.1", c20_1), ("C20.3", c20_3), ("C20.4", c20_4), ("C20.5", c20_5)):
+        ctx.guard(r, f, ss)
+
+
+def _class_state_writes(ss):
+    """(class attr) -> list of (func, node, how) for writes to class-level state in modeling/."""
+    ef = effects(ss)
+    out = {}
+    for k, ff in ef.cg.funcs.items():
+        if not ff.module.startswith("modeling/"):
+            continue
+        for w in ef.local[k]:
+            r = w.root
+            if r and r[0] == "state":
+                name = None
+                t = r[1]
+                for pre in ("cls.", "self.__class__.", "GooFitChain.", "GooFitPyChain.", "AmplitudeChain."):
+                    if t.startswith(pre):
+                        name = t[len(pre):]
+                if t.startswith("global "):
+                    # store ClassName.attr = ...
+                    how = w.how
+                    if how.startswith("store ") and "." in how:
+                        name = how[6:].split(".", 1)[1].split("[")[0]
+                if t == "self.__class__" and w.how.startswith("store self.__class__."):
+                    name = w.how[len("store self.__class__."):]
+                if name and not t.startswith("self._") and not t.startswith("self.") or (name and t.startswith("self.__class__")):
+                    out.setdefault(name.split(".")[0], []).append((ff, w))
+    return out
+
+
+def _reads(ss, attr):
+    out = []
+    for m in pf.all_modules(ss):
+        if not m.startswith("modeling/"):
+            continue
+        mf = pf.module_facts(ss, m)
+        for q, ff in mf.funcs.items():
+            for a in pf.walk_no_nested(ff.node):
+                if isinstance(a, ast.Attribute) and a.attr == attr and isinstance(a.ctx, ast.Load) and \
+                        txt(a.value) in ("cls", "self.__class__", "GooFitChain", "GooFitPyChain", "AmplitudeChain", "self"):
+                    out.append((ff, a))
+    return out
+
+
+def c20_1(ctx, ss):
+    writes = _class_state_writes(ss)
+    ctx.count("class_state_attrs", len(writes))
+    ff, flow = fn(ss, ACHAIN, R)
+    cfg = flow.cfg
+    cg = callgraph(ss)
+    # first statements of read_ampgen that reach a reader/writer of the state
+    calls = {}
+    for c in pf.calls_in(ff.node):
+        t = txt(c.func)
+        if t in ("cls.from_matched_line",) or t.endswith(".expand_lines"):
+            calls[t] = stmt_of(ff, c)
+    if "cls.from_matched_line" not in calls:
+        raise AnchorMissing("read_ampgen: call of cls.from_matched_line not found")
+    tracked = {"all_particles": "set", "final_particles": "set", "cartesian": "flag"}
+    for attr, kind in tracked.items():
+        ws = writes.get(attr, [])
+        rs = _reads(ss, attr)
+        written_on_read_path = [w for w in ws if w[0].qualname in ("AmplitudeChain.from_matched_line", "AmplitudeChain.expand_lines", R)]
+        k = f"{ACHAIN}:{R} :: reset-class-state" if attr != "final_particles" else f"{ACHAIN}:{R} :: reset-class-state:final_particles"
+        if not written_on_read_path:
+            ctx.holds("C20.1", f"{ACHAIN}:AmplitudeChain.{attr} :: tracked", f"src/decaylanguage/{ACHAIN}", f"{attr}: no longer written on the read path", 1)
+            continue
+        readers = sorted({f.qualname for f, _ in rs if f.qualname != R})
+        ctx.holds("C20.1", f"{ACHAIN}:AmplitudeChain.{attr} :: tracked", f"src/decaylanguage/{ACHAIN}",
+                  f"{attr}: written by {sorted({w[0].qualname for w in ws})}, read by {readers[:5]}", len(ws) + len(rs))
+        if attr == "final_particles" and not readers:
+            ctx.notes.append("final_particles is written but never read (information only)")
+        # C20.2: reset in read_ampgen on every path, before the first use
+        resets = []
+        for st in pf.iter_stmts(ff.node.body):
+            if isinstance(st, ast.Assign) and any(isinstance(t, ast.Attribute) and t.attr == attr and txt(t.value) in ("cls", "AmplitudeChain") for t in st.targets):
+                v = st.value
+                fresh = (kind == "set" and txt(v) in ("set()", "frozenset()")) or (kind == "flag" and isinstance(v, ast.Constant) and v.value is False)
+                if fresh and not [c for c in guards.path_conditions(ff.node, st) if c[0] in ("if", "exc", "loop")]:
+                    resets.append(st)
+            if isinstance(st, ast.Expr) and isinstance(st.value, ast.Call) and txt(st.value.func) in (f"cls.{attr}.clear",) and kind == "set":
+                if not [c for c in guards.path_conditions(ff.node, st) if c[0] in ("if", "exc", "loop")]:
+                    resets.append(st)
+        first_use = cfg.node_of(calls["cls.from_matched_line"])
+        ok = False
+        for st in resets:
+            n = cfg.node_of(st)
+            if cfg.dominates(n, first_use) and cfg.must_pass({n}):
+                ok = True
+        if ok:
+            ctx.holds("C20.2", k, where(ff, resets[0]), f"{attr} is re-initialised at the start of every read, before any line is built", 2)
+        else:
+            extra = ""
+            if attr == "cartesian":
+                extra = " (the switch is only written when the option is present, so a file without it inherits the previous file's convention)"
+            ctx.violation("C20.2", k, where(ff, ff.node),
+                          f"class-level `{attr}` is written while reading and read afterwards, but read_ampgen never re-initialises it before use: "
+                          f"what an earlier read (by any reader class) left there leaks into this one{extra}")
+        # C20.3: rebind through cls
+        for st in resets:
+            tg = [t for t in getattr(st, "targets", []) if isinstance(t, ast.Attribute)]
+            if tg and txt(tg[0].value) != "cls":
+                ctx.violation("C20.3", k + " :: via-cls", where(ff, st),
+                              f"`{txt(st)}` rebinds the attribute on the base class: a subclass that already got its own `{attr}` through `cls.{attr} |= …` keeps the old set")
+            elif tg:
+                ctx.holds("C20.3", k + " :: via-cls", where(ff, st), f"`{txt(st)}` rebinds through cls", 1)
+    # the additions go through cls / the instance's class as well
+    fm, fmflow = fn(ss, ACHAIN, "AmplitudeChain.from_matched_line")
+    adds = [n for n in pf.walk_no_nested(fm.node) if isinstance(n, ast.AugAssign) and isinstance(n.target, ast.Attribute) and n.target.attr == "all_particles"]
+    ok = bool(adds) and all(txt(a.target.value) == "cls" for a in adds)
+    (ctx.holds if ok else ctx.violation)("C20.3", ckey(fm, None, "adds-via-cls"), where(fm, adds[0] if adds else fm.node),
+                                          "particles are added to cls.all_particles (the set the reset installed)" if ok else "particles are not added through cls.all_particles")
+
+
+def c20_3(ctx, ss):
+    """pars / consts of the two converters: assigned unconditionally per read and read back through the same class."""
+    mf = pf.module_facts(ss, GOOFIT)
+    for cname in ("GooFitChain", "GooFitPyChain"):
+        cf = mf.classes.get(cname)
+        if cf is None:
+            raise AnchorMissing(f"class {cname} not found")
+        ra = cf.methods.get("read_ampgen")
+        if ra is None:
+            raise AnchorMissing(f"{cname}.read_ampgen not found")
+        from ..core.defuse import flow_of
+        fl = flow_of(ss, ra)
+        k = ckey(ra, None, "pars-consts")
+        ok = False
+        for st in pf.iter_stmts(ra.node.body):
+            if isinstance(st, ast.Assign) and isinstance(st.targets[0], ast.Tuple):
+                tg = [txt(e) for e in st.targets[0].elts]
+                own = {f"{cname}.pars", f"{cname}.consts"} <= set(tg) or {"cls.pars", "cls.consts"} <= set(tg)
+                if own and txt(st.value).startswith("super().read_ampgen(") and fl.cfg.must_pass({fl.cfg.node_of(st)}):
+                    # positions: (lines, pars, consts, states)
+                    ok = len(tg) == 4 and tg[1].endswith(".pars") and tg[2].endswith(".consts")
+        (ctx.holds if ok else ctx.violation)("C20.3", k, where(ra, ra.node),
+                                              f"{cname}.read_ampgen assigns its own pars and consts from every read (2nd and 3rd result)" if ok
+                                              else f"{cname}.read_ampgen does not unconditionally assign {cname}.pars / {cname}.consts from the read")
+        # reads go through the same class
+        other = "GooFitPyChain" if cname == "GooFitChain" else "GooFitChain"
+        bad = []
+        n = 0
+        for mname, m in cf.methods.items():
+            for a in pf.walk_no_nested(m.node):
+                if isinstance(a, ast.Attribute) and a.attr in ("pars", "consts", "all_particles") and isinstance(a.value, ast.Name):
+                    n += 1
+                    if a.value.id == other:
+                        bad.append((m, a))
+        for m, a in bad:
+            ctx.violation("C20.3", ckey(m, None, f"sibling-state:{a.attr}"), where(m, a), f"{cname}.{m.node.name} reads {other}.{a.attr}: the tables of the OTHER converter's last read")
+        if not bad:
+            ctx.holds("C20.3", f"{GOOFIT}:{cname} :: own-state", f"src/decaylanguage/{GOOFIT}:{cf.node.lineno}", f"{cname} reads only its own pars / consts / particles ({n} sites)", n + 1)
+    # the converters read the class they converted with
+    for q, cls_ in (("ampgen2goofit", "GooFitChain"), ("ampgen2goofitpy", "GooFitPyChain")):
+        ff, flow = fn(ss, A2G, q)
+        other = "GooFitPyChain" if cls_ == "GooFitChain" else "GooFitChain"
+        uses = [a for a in pf.walk_no_nested(ff.node) if isinstance(a, ast.Name) and a.id == other]
+        (ctx.violation if uses else ctx.holds)("C20.3", ckey(ff, None, "own-class"), where(ff, uses[0] if uses else ff.node),
+                                                f"{q} uses {other} (state of another converter)" if uses else f"{q} works with {cls_} only", 1)
+
+
+def c20_4(ctx, ss):
+    ff, flow = fn(ss, ACHAIN, "AmplitudeChain.from_matched_line")
+    loads = [c for c in pf.calls_in(ff.node) if isinstance(c.func, ast.Attribute) and c.func.attr == "load_table"]
+    k = ckey(ff, None, "special-particles")
+    if not loads:
+        ctx.holds("C20.4", k, where(ff, ff.node), "no particle table is loaded while reading", 1)
+        return
+    for c in loads:
+        conds = [(e, pol) for kind, e, pol in guards.path_conditions(ff.node, stmt_of(ff, c)) if kind == "if"]
+        ok = any(isinstance(e, ast.Compare) and len(e.ops) == 1 and ((isinstance(e.ops[0], ast.NotIn) and pol) or (isinstance(e.ops[0], ast.In) and not pol)) for e, pol in conds)
+        app = any(kw.arg == "append" and isinstance(kw.value, ast.Constant) and kw.value.value is True for kw in c.keywords)
+        (ctx.holds if ok and app else ctx.violation)("C20.4", k, where(ff, c),
+                                                     "the special-particle table is appended once, guarded by a membership test" if ok and app
+                                                     else "the special-particle table is (re)loaded on every line / replaces the table: later reads see a different particle table than the first")
+
+
+def c20_5(ctx, ss):
+    ef = effects(ss)
+    n = 0
+    allowed_attrs = {"all_particles", "final_particles", "cartesian", "pars", "consts"}
+    for k, ff in ef.cg.funcs.items():
+        if not ff.module.startswith("modeling/"):
+            continue
+        for w in ef.local[k]:
+            n += 1
+            r = w.root
+            if r and r[0] == "state" and r[1].startswith("global "):
+                how = w.how
+                attr = how[6:].split(".", 1)[1].split("[")[0] if how.startswith("store ") and "." in how else None
+                if attr in allowed_attrs and r[1][7:] in ("GooFitChain", "GooFitPyChain", "AmplitudeChain"):
+                    continue
+                ctx.violation("C20.5", ckey(ff, None, f"module-state:{how[:40]}"), where(ff, w.node),
+                              f"{ff.qualname} writes module-level state ({how} on {r[1]}): results depend on earlier calls")
+        for g in [x for x in pf.walk_no_nested(ff.node) if isinstance(x, ast.Global)]:
+            ctx.violation("C20.5", ckey(ff, None, "global-stmt"), where(ff, g), f"{ff.qualname} declares `global {', '.join(g.names)}`")
+    ctx.count("write_sites", n)
+    ctx.holds("C20.5", "modeling :: no-other-module-state", "src/decaylanguage/modeling", f"{n} write sites in modeling/ inspected; only the five tracked class attributes are process-wide", n)
+    # no cache decorators on reader / generator functions
+    for k, ff in ef.cg.funcs.items():
+        if ff.module.startswith("modeling/") and set(ff.decorators) & {"lru_cache", "cache", "cached_property"}:
+            ctx.violation("C20.5", ckey(ff, None, "cached"), where(ff, ff.node), f"{ff.qualname} is cached across calls")
